@@ -369,6 +369,8 @@ def check(rep, F, tier, replay=None):
         for f_ in sorted(cf_ - jf_):
             rep.violation("JSON-fields", "%s.%s" % (adt_.rsplit("::", 1)[-1], f_), "the CBOR writer of %s reads `%s` but the derived JSON form does not carry it (skipped): a value whose `%s` was set through the API comes back from JSON with the default and serialises to different bytes (different hash)" % (adt_.rsplit("::", 1)[-1], f_, f_), {})
     rep.floor("structs with derived JSON form and CBOR writer", 80, n_jf)
+    from ruleutil import int_range_rule
+    int_range_rule(rep, F)
     return rep.finish(
         EXPLANATION,
         ["serde derive output is a faithful field-by-field form", "the registered inverse pairs are inverse functions (their own round trips are C01/C11/C14 clauses)"],
